@@ -219,6 +219,16 @@ def run(tier):
         suite.fact('eval.sum.empty', isinstance(z0, tensor.Tensor) and (z0.dom, z0.cod) == (Dim(2), Dim(3))
                    and not numpy.any(numpy.array(z0.array, dtype=complex)),
                    what='the empty sum evaluates to the zero tensor of its type (got %r)' % (z0,), functions=['tensor.Sum.eval'])
+    with suite.guard('functor on sums', fq):
+        from discopy.monoidal import Sum as _MSum
+        zimg = F(_MSum([], f.dom, f.cod))
+        suite.fact('functor.sum.empty', isinstance(zimg, tensor.Tensor) and (zimg.dom, zimg.cod) == (F(f.dom), F(f.cod))
+                   and not numpy.any(numpy.array(zimg.array, dtype=complex)), functions=fq,
+                   what='the functor sends the empty sum of a hom-set to the zero TENSOR of the image hom-set (got %r)' % (zimg,))
+        suite.identity('functor.sum.one_term', entries(mat(F(_MSum([f])))), entries(mat(F(f))), extra=syms, functions=fq)
+        suite.identity('functor.sum.zero_then_box', entries(mat(F(_MSum([], f.dom, f.cod)) >> F(e))),
+                       entries(sympy.zeros(*mat(F(f) >> F(e)).shape)), functions=fq,
+                       what='the image of a zero composes like a tensor')
     with suite.guard('tensor boxes', ['tensor.Diagram.eval']):
         v = tensor.Box('v', Dim(1), Dim(2), arrays[s])
         m = tensor.Box('m', Dim(2), Dim(3), arrays[f])
